@@ -101,8 +101,8 @@ TEXTS = {
     },
     "C04": {
         "technique": "runtime differential monitor: interleaved multi-scene run vs fresh single-scene replays of each scene's projection (id bijection, bit-exact numbers) + lifecycle model; explain-divergence oracle for near ties",
-        "level_text": "Sort and VisualSort histories of 30..90 calls over 2..4 scenes, 60% with all scenes occupying the same image region; each scene's records are compared call by call with a fresh tracker fed only that scene's calls; cross-scene attachments are additionally caught by the lifecycle model.",
-        "level_note": "Batch kinds are covered through C06 (refinement of the simple kinds). A grouping difference is only accepted as a tie when both outcomes pass the C02/C12 reference on their own pre-states; such ties are counted and capped at 0.1% of compared calls.",
+        "level_text": "Sort / VisualSort / BatchSort / BatchVisualSort histories of 30..90 calls (or multi-scene batches) over 2..4 scenes, 60% with all scenes occupying the same image region; each scene's records are compared call by call with a fresh tracker fed only that scene's calls; cross-scene attachments are additionally caught by the lifecycle model.",
+        "level_note": "A grouping difference is only accepted as a tie when both outcomes pass the C02/C12 reference on their own pre-states; such ties are counted and capped at 0.1% of compared calls.",
     },
     "C05": {
         "technique": "runtime differential monitor under controlled schedules: 1-shard reference vs shard counts 2..8 x {free, seeded delay plans, gate scripts forcing a worker to deliver its distance chunks last/first}; Miri many-seeds (thorough)",
